@@ -4,6 +4,7 @@
 mod cv;
 mod bs;
 mod mq;
+mod mqs;
 mod pl;
 mod ra;
 mod sd;
@@ -88,6 +89,7 @@ fn main() {
             "rp" => rp::run_case(&f),
             "cv" => cv::run_case(&mut servers, &f),
             "mq" => mq::run_case(&f),
+            "mqs" => mqs::run_case(&f),
             "pl" => pl::run_case(&mut servers, &f),
             "ra" => ra::run_case(&mut servers, &f),
             "tp" => tp::run_case(&f),
